@@ -26,7 +26,8 @@ EXP = {
               "3 (integral)": 3.0},
     "fint": {"3": 3, "0": 0, "1": 1},
     "fbool": {"true": True, "false": False},
-    "fboolorfloat": {"true": True, "false": False, "2.5": 2.5},
+    "fboolorfloat": {"true": True, "false": False, "2.5": 2.5,
+                     "1 (one)": 1.0},
     "fintlist": {"[1,2,3]": [1, 2, 3], "[]": [], "[7]": [7], "[0,2]": [0, 2]},
     "f1dfloatduple": {"(1.5,2)": (1.5, 2.0)},
     "f2dfloatarray": {"[[1,2],[3,4.5]]": np.array([[1, 2], [3, 4.5]])},
